@@ -160,7 +160,11 @@ func mixesTypes(e xast.Expr) bool {
 func TestC15Rapid(t *testing.T) {
 	journal := harness.OpenJournal()
 	runRapid(t, uC15Rapid, func(rt *rapid.T) {
-		doc := xgen.Doc(rt, c15Doc())
+		o := c15Doc()
+		if rapid.IntRange(0, 9).Draw(rt, "wide") == 0 {
+			o.WideFan, o.MaxAttrs = 12, 1 // sibling positions of two digits
+		}
+		doc := xgen.Doc(rt, o)
 		ctx := xgen.Context(rt, doc, 3)
 		g := xgen.NewG(rt, doc)
 		g.ElNames = xgen.ElNames2
